@@ -265,6 +265,12 @@ class SymCOO:
     def __add__(self, o):
         return self.toarray() + (o.toarray() if isinstance(o, SymCOO) else o)
 
+    def tocsr(self, copy=False):
+        return self
+
+    def __truediv__(self, o):
+        return SymCOO(self.toarray() / o)
+
 
 def sym_coo_matrix(arg1, shape=None, dtype=None, copy=False):
     if not core.active() or not has_sym(arg1):
@@ -372,10 +378,40 @@ def sym_connected_components(csgraph, directed=True, connection='weak', return_l
     return (nxt, lab) if return_labels else nxt
 
 
+class SymLinearOperator:
+    """scipy.sparse.linalg.aslinearoperator(A) for a dense symbolic A: matvec = A.x, rmatvec = A^H.x
+    (= A^T.x for real A) -- the definition."""
+
+    def __init__(self, A):
+        self.A = funcs._as_sarr(A)
+        self.shape = self.A.shape
+        self.dtype = self.A.dtype
+
+    def matvec(self, x):
+        return funcs.np_matmul(self.A, funcs._as_sarr(x))
+
+    def rmatvec(self, x):
+        return funcs.np_matmul(funcs.np_transpose(self.A), funcs._as_sarr(x))
+
+    dot = matvec
+
+
+def sym_aslinearoperator(A):
+    if not core.active():
+        return _spl.aslinearoperator(A)
+    if isinstance(A, SymCOO):
+        A = A.toarray()
+    if not has_sym(A):
+        return _spl.aslinearoperator(unwrap(A))
+    return SymLinearOperator(A)
+
+
 class _SpLinalgProxy:
     def __getattr__(self, n):
         if n == 'spsolve':
             return sym_spsolve
+        if n == 'aslinearoperator':
+            return sym_aslinearoperator
         real = getattr(_spl, n)
         if callable(real) and not isinstance(real, type):
             def f(*a, **k):
